@@ -1,4 +1,185 @@
-/-! Line-protocol driver for property C01 (stub until the model exists). -/
-def main (_args : List String) : IO UInt32 := do
-  IO.eprintln "drv_c01: no model yet"
-  return 2
+import CprocVerif.Model.CSem
+import CprocVerif.Model.Lower
+import CprocVerif.Spec.QbeWf
+/-!
+Line-protocol driver for property C01 (fragment 𝔽₁: pure scalar integer expressions).
+
+    drv_c01 [--cs 0|1] [--start N] emit     one function description per stdin line; prints the IL
+                                            text of `Lower.emitFunc` for each, every function followed
+                                            by a line `--`.  `mkblock`'s counter starts at N (default 0)
+                                            and runs on from one line to the next, as in one
+                                            translation unit.
+    drv_c01 [--cs 0|1] [--fuel N] eval      lines `FUNC | a1 a2 …` (decimal C values of the
+                                            arguments); prints `c=<evalC> il=<outcome>` where
+                                            <evalC> is the value or `ub`, <outcome> is what
+                                            `Qbe.runFunc` gives for the emitted function (`ret N`, `trap …`);
+                                            a field `wf=0` is added when the emitted module fails
+                                            the IL validator `Qbe.wf` (Spec/QbeWf).
+                                            A line `wt=0 …` is printed when the tree is ill-typed
+                                            or the arguments are out of range.
+
+`--cs` is the signedness of plain `char` (default 1 = x86_64).  A malformed line gives `bad <reason>`.
+
+Function descriptions are S-expressions mirroring cproc's typed tree after parsing:
+
+    FUNC ::= (fn NAME RET (TY …) EXPR)        RET name(TY p0, TY p1, …) { return EXPR; }
+    EXPR ::= (c TY U)                         EXPRCONST, U = u.constant.u as an unsigned decimal
+           | (p TY I)                         EXPRIDENT, I-th parameter (0-based)
+           | (cast TY EXPR)                   EXPRCAST
+           | (neg TY EXPR)                    EXPRUNARY TSUB
+           | (OP TY EXPR EXPR)                EXPRBINARY; TY is the type of the node
+           | (cond TY EXPR EXPR EXPR)         EXPRCOND
+    OP   ::= mul div mod add sub shl shr and or xor lt gt le ge eq ne lor land
+    TY   ::= b c sc uc s us i u l ul ll ull   (_Bool, char, signed char, unsigned char, short, …)
+-/
+
+open CprocVerif CprocVerif.CSem CprocVerif.Lower CprocVerif.CInt
+
+inductive SExp where
+  | atom (s : String)
+  | list (l : List SExp)
+  deriving Inhabited
+
+def tokenize (s : String) : List String :=
+  let r := s.toList.foldl (fun (acc : List String × String) ch =>
+    if ch == '(' || ch == ')' then
+      ((if acc.2.isEmpty then acc.1 else acc.2 :: acc.1) |> (String.singleton ch :: ·), "")
+    else if ch == ' ' || ch == '\t' || ch == '\n' || ch == '\r' then
+      ((if acc.2.isEmpty then acc.1 else acc.2 :: acc.1), "")
+    else (acc.1, acc.2.push ch)) ([], "")
+  ((if r.2.isEmpty then r.1 else r.2 :: r.1)).reverse
+
+/-- Parse a token list with an explicit stack of open lists. -/
+def parseSExp (toks : List String) : Except String SExp :=
+  let rec go : List String → List (List SExp) → Except String SExp
+    | [], [[e]] => .ok e
+    | [], _ => .error "unbalanced"
+    | "(" :: r, st => go r ([] :: st)
+    | ")" :: r, top :: nxt :: st => go r ((SExp.list top.reverse :: nxt) :: st)
+    | ")" :: _, _ => .error "unexpected )"
+    | a :: r, top :: st => go r ((SExp.atom a :: top) :: st)
+    | _ :: _, [] => .error "internal"
+  go toks [[]]
+
+def parseTy : SExp → Except String CSem.Ty
+  | .atom "b" => .ok .bool | .atom "c" => .ok .char | .atom "sc" => .ok .schar
+  | .atom "uc" => .ok .uchar | .atom "s" => .ok .short | .atom "us" => .ok .ushort
+  | .atom "i" => .ok .int | .atom "u" => .ok .uint | .atom "l" => .ok .long
+  | .atom "ul" => .ok .ulong | .atom "ll" => .ok .llong | .atom "ull" => .ok .ullong
+  | _ => .error "type"
+
+def parseOp : String → Option BinOp
+  | "mul" => some .mul | "div" => some .div | "mod" => some .mod | "add" => some .add
+  | "sub" => some .sub | "shl" => some .shl | "shr" => some .shr | "and" => some .band
+  | "or" => some .bor | "xor" => some .bxor | "lt" => some .lt | "gt" => some .gt
+  | "le" => some .le | "ge" => some .ge | "eq" => some .eq | "ne" => some .ne
+  | "lor" => some .lor | "land" => some .land
+  | _ => none
+
+def parseNat (s : SExp) : Except String Nat :=
+  match s with
+  | .atom a => match a.toNat? with
+    | some n => .ok n
+    | none => .error ("number: " ++ a)
+  | _ => .error "number"
+
+/-- `fuel` bounds the nesting depth (the token count of the line is always enough). -/
+def parseExprF : Nat → SExp → Except String Expr
+  | 0, _ => .error "expression too deep"
+  | n + 1, e =>
+    match e with
+    | .list [.atom "c", t, u] => do pure (.const (← parseTy t) (← parseNat u))
+    | .list [.atom "p", t, i] => do pure (.param (← parseTy t) (← parseNat i))
+    | .list [.atom "cast", t, e] => do pure (.cast (← parseTy t) (← parseExprF n e))
+    | .list [.atom "neg", t, e] => do pure (.neg (← parseTy t) (← parseExprF n e))
+    | .list [.atom "cond", t, c, a, b] => do
+      pure (.cond (← parseTy t) (← parseExprF n c) (← parseExprF n a) (← parseExprF n b))
+    | .list [.atom op, t, l, r] =>
+      match parseOp op with
+      | some o => do pure (.bin o (← parseTy t) (← parseExprF n l) (← parseExprF n r))
+      | none => .error ("operator: " ++ op)
+    | _ => .error "expression"
+
+def parseFunc (fuel : Nat) : SExp → Except String CSem.Func
+  | .list [.atom "fn", .atom name, ret, .list ps, body] => do
+    pure ⟨name, ← parseTy ret, ← ps.mapM parseTy, ← parseExprF fuel body⟩
+  | _ => .error "function"
+
+def parseFuncLine (s : String) : Except String CSem.Func := do
+  let toks := tokenize s
+  parseFunc (toks.length + 1) (← parseSExp toks)
+
+def parseIntLit (s : String) : Option Int :=
+  if s.startsWith "-" then (s.drop 1).toString.toNat?.map fun n => -(n : Int)
+  else s.toNat?.map fun n => (n : Int)
+
+structure Opts where
+  cs : Bool := true
+  start : Nat := 0
+  fuel : Nat := 1000000
+
+def takeOpts : List String → Opts → Opts × List String
+  | "--cs" :: v :: r, o => takeOpts r { o with cs := v != "0" }
+  | "--start" :: v :: r, o => takeOpts r { o with start := v.toNat?.getD 0 }
+  | "--fuel" :: v :: r, o => takeOpts r { o with fuel := v.toNat?.getD o.fuel }
+  | r, o => (o, r)
+
+def cmdEmit (o : Opts) : IO UInt32 := do
+  let stdin ← IO.getStdin
+  let out ← IO.getStdout
+  let mut id := o.start
+  repeat
+    let line ← stdin.getLine
+    if line.isEmpty then break
+    let l := line.trimAscii.toString
+    if l.isEmpty then continue
+    match parseFuncLine l with
+    | .error e => out.putStrLn ("bad " ++ e)
+    | .ok f =>
+      out.putStr (render (emitFunc o.cs id f))
+      id := nextBlockId o.cs id f
+    out.putStrLn "--"
+  out.flush
+  return 0
+
+def cmdEval (o : Opts) : IO UInt32 := do
+  let stdin ← IO.getStdin
+  let out ← IO.getStdout
+  repeat
+    let line ← stdin.getLine
+    if line.isEmpty then break
+    let l := line.trimAscii.toString
+    if l.isEmpty then continue
+    match l.splitOn "|" with
+    | [fs, as] =>
+      match parseFuncLine fs with
+      | .error e => out.putStrLn ("bad " ++ e)
+      | .ok f =>
+        let ws := (as.trimAscii.toString.splitOn " ").filter (· ≠ "")
+        match ws.mapM parseIntLit with
+        | none => out.putStrLn "bad argument"
+        | some vs =>
+          let okTy := f.wt && envOKb o.cs f.params vs
+          let c := match evalC o.cs vs f.body with
+            | some v => toString v
+            | none => "ub"
+          let qf := emitFunc o.cs o.start f
+          let p := Qbe.Prog.ofModule (moduleOf qf)
+          let r := Qbe.runFunc p Qbe.noExt f.name (argsOf f.params vs) o.fuel
+          let wfOk := match Qbe.wf (moduleOf qf) with
+            | .ok () => true
+            | .error _ => false
+          out.putStrLn ((if okTy then "" else "wt=0 ") ++ (if wfOk then "" else "wf=0 ") ++
+            "c=" ++ c ++ " il=" ++ r.end.render)
+    | _ => out.putStrLn "bad line"
+  out.flush
+  return 0
+
+def main (args : List String) : IO UInt32 := do
+  let (o, rest) := takeOpts args {}
+  match rest with
+  | ["emit"] => cmdEmit o
+  | ["eval"] => cmdEval o
+  | _ =>
+    IO.eprintln "usage: drv_c01 [--cs 0|1] [--start N] [--fuel N] emit|eval"
+    return 2
